@@ -259,6 +259,7 @@ func (s *Sorter) SortedBlocks(ctx context.Context, removedCols map[int]struct{},
 		blkPK := make([]string, 0, len(pkIndices))
 		rowPK := make([]string, len(pkIndices))
 		prevRowPK := make([]string, len(pkIndices))
+		firstRow := true
 		dec := objects.NewStrListDecoder(true)
 		n := len(s.chunks)
 		chunkRows := make([]objects.StrList, n)
@@ -318,7 +319,7 @@ func (s *Sorter) SortedBlocks(ctx context.Context, removedCols map[int]struct{},
 			minRow = r.RemoveFrom(minRow)
 			row := dec.Decode(minRow)
 			slice.CopyValuesFromIndices(row, rowPK, pkIndices)
-			pkOK := pkIsDifferent(rowPK, prevRowPK)
+			pkOK := pkIsDifferent(rowPK, prevRowPK, &firstRow)
 			if pkOK {
 				m := len(blk)
 				blk = blk[:m+1]
@@ -381,14 +382,11 @@ func (s *Sorter) SortedBlocks(ctx context.Context, removedCols map[int]struct{},
 	return
 }
 
-func pkIsDifferent(pk, prevPK []string) bool {
-	if prevPK == nil {
-		copy(prevPK, pk)
-		return true
-	} else {
-		if slice.StringSliceEqual(prevPK, pk) {
-			return false
-		}
+func pkIsDifferent(pk, prevPK []string, first *bool) bool {
+	if *first {
+		*first = false
+	} else if slice.StringSliceEqual(prevPK, pk) {
+		return false
 	}
 	copy(prevPK, pk)
 	return true
@@ -409,6 +407,7 @@ func (s *Sorter) SortedRows(ctx context.Context, removedCols map[int]struct{}, e
 		chunkIdx := make([]int, n)
 		pk := make([]string, len(pkIndices))
 		prevPK := make([]string, len(pkIndices))
+		firstRow := true
 		for {
 			minInd := 0
 			var minRow []string
@@ -462,7 +461,7 @@ func (s *Sorter) SortedRows(ctx context.Context, removedCols map[int]struct{}, e
 				break
 			}
 			slice.CopyValuesFromIndices(minRow, pk, pkIndices)
-			pkOK := pkIsDifferent(pk, prevPK)
+			pkOK := pkIsDifferent(pk, prevPK, &firstRow)
 			if pkOK {
 				rows = append(rows, s.removeCols(minRow, removedCols))
 				if s.profiler != nil {
